@@ -719,10 +719,22 @@ class ExpressionEvaluator:
         self.ctx = ctx
 
     def evaluate(self, node: ast.AST) -> Any:
-        """Evaluate an AST node and return its value."""
+        """Evaluate an AST node and return its value.
+
+        Any failure is reported as ExpressionError - the one exception every
+        caller handles - so an ill-typed expression (comparing a number with a
+        string, a string function on a number, next() on an exhausted
+        generator, ...) makes just that rule inapplicable instead of aborting
+        the whole run.
+        """
         method = f'_eval_{type(node).__name__}'
         if hasattr(self, method):
-            return getattr(self, method)(node)
+            try:
+                return getattr(self, method)(node)
+            except ExpressionError:
+                raise
+            except Exception as e:
+                raise ExpressionError(f"{type(e).__name__}: {e}") from e
         raise ExpressionError(f"Cannot evaluate node type: {type(node).__name__}")
 
     def _eval_Expression(self, node: ast.Expression) -> Any:
@@ -893,10 +905,22 @@ class TransactionEvaluator:
         self._scope: Dict[str, Any] = {}
 
     def evaluate(self, node: ast.AST) -> Any:
-        """Evaluate an AST node and return its value."""
+        """Evaluate an AST node and return its value.
+
+        Any failure is reported as ExpressionError - the one exception every
+        caller handles - so an ill-typed expression (comparing a number with a
+        string, a string function on a number, next() on an exhausted
+        generator, ...) makes just that rule inapplicable instead of aborting
+        the whole run.
+        """
         method = f'_eval_{type(node).__name__}'
         if hasattr(self, method):
-            return getattr(self, method)(node)
+            try:
+                return getattr(self, method)(node)
+            except ExpressionError:
+                raise
+            except Exception as e:
+                raise ExpressionError(f"{type(e).__name__}: {e}") from e
         raise ExpressionError(f"Cannot evaluate node type: {type(node).__name__}")
 
     def _eval_Expression(self, node: ast.Expression) -> Any:
